@@ -130,7 +130,9 @@ func verifHarness_C02_async_three_events_gate() {
 
 func verifHarness_C02_async_three_bursts_T() {
 	verifBound("bursts", 3)
-	verifC02Stream(1+verifChoose("mode", 2), true, true, 1+verifChoose("bufsize", 2), 1+verifChoose("maxreads", 2)*2, 3, 3, false, 3)
+	verifBound("burst_bytes", 2)
+	verifBound("preemptions", 2)
+	verifC02Stream(1+verifChoose("mode", 2), true, true, 1+verifChoose("bufsize", 2), 1+verifChoose("maxreads", 2)*2, 3, 2, false, 2)
 	verifAssert(false, "witness")
 }
 
